@@ -15,7 +15,16 @@ Abstract world (JSON):
   prior  'absent' | 'G' | 'P' | 'C1' | 'C2'
   cfg    configuration axes that do not change the abstract result (folded back onto the same model
          input): byte contents of the bodies, checksum-file format, how "unavailable" / "HTTP error"
-         / the HEAD request of the progress bar are served.
+         / the HEAD request of the progress bar are served, and how a WRONG checksum ('bad') is spelled:
+         the well-formed MD5 of other bytes (lower or upper case), or a text that is not the 32-digit
+         hex of any MD5 -- the right digest one character short / one character long / with a non-hex
+         character.  phylib compares the published text with hashlib's hexdigest() as strings, so each
+         of these is "a checksum is available and the file does not have it" (probed on the unchanged
+         code: mismatch, one retry, RuntimeError), i.e. the same abstract answer Sum 9.  The upper-case
+         spelling of the RIGHT digest is deliberately not among them: as a number it IS the file's MD5,
+         phylib's string comparison rejects it (fail-safe: RuntimeError, never a normal return), and
+         which of "correct"/"wrong" it is is a matter of checksum-file format, outside the reading
+         like the bare digest followed by a newline (ASSUMES).
 """
 import hashlib
 import io
@@ -31,7 +40,9 @@ ID = 'C20'
 RULE = ('exhaustive: every data-URL script of length <= 3 (quick; <= 4 thorough) over {good, corrupt, HTTP error} '
         'x constant checksum-URL behaviour {correct, wrong, missing} x prior file {absent, valid, corrupt} = 351 '
         '(1080) worlds, each under several server configurations (body sizes around the 1024-byte chunk and '
-        '2**20-byte MD5 block, checksum-file formats, 404/500/empty/dropped checksum answers, HEAD failures); plus '
+        '2**20-byte MD5 block, checksum-file formats, 404/500/empty/dropped checksum answers, HEAD failures), and '
+        'every wrong-checksum world under each spelling of "wrong" (MD5 of other bytes in lower / upper case; the '
+        'right digest truncated / one character too long / with a non-hex character); plus '
         'varying checksum scripts, two distinct corrupt bodies, wrong checksums that match a corrupt body, and a '
         'seeded random stream. Non-trivial = at least one data GET was made and answered 200 (a body was written '
         'and verified); distinct = distinct abstract world (configuration axes folded).')
@@ -52,6 +63,10 @@ TRUSTED = ['hashlib.md5 (distinct bodies used by the harness have distinct diges
            'the mock server of harness/vt/props/c20.py (scripted responses, request log)']
 ASSUMES = ['the checksum file holds the hex digest first, followed by end of file or a space (md5sum format); a bare '
            'digest followed by a newline is outside the reading (phylib splits on spaces only)',
+           'the published checksum is the text of the checksum file up to the first space; "correct" = the lower-case '
+           'hex digest as md5sum / hashlib print it; a non-empty text that is not the hex of the file\'s MD5 in either '
+           'case (other digest, truncated, too long, non-hex character) is a WRONG checksum; the upper-case spelling '
+           'of the right digest (rejected by phylib\'s string comparison) is outside the reading',
            'server behaviour is a function of the request count per URL (scripted), as in the property quantifier']
 TIMEOUT = {'quick': 30, 'thorough': 60}
 
@@ -84,11 +99,31 @@ for _k in BODY_KINDS:
     _b = _bodies(_k)
     assert len({hashlib.md5(v).hexdigest() for v in list(_b.values()) + [_BAD_BYTES]}) == 5, _k
 
+assert hashlib.md5(_BAD_BYTES).hexdigest().upper() != hashlib.md5(_BAD_BYTES).hexdigest()
+
 FMTS = ['bare', 'md5sum', 'space']
 MISSINGS = ['404', '500', 'empty', 'drop']
 ERRS = [404, 500, 403]
 HEADS = ['ok', '404', 'nolen', 'drop', 'short']
-DEFAULT_CFG = {'bodies': 'small', 'fmt': 'md5sum', 'missing': '404', 'err': 404, 'head': 'ok'}
+WRONGS = ['md5', 'trunc', 'long', 'nonhex', 'upper']      # spellings of the wrong checksum 'bad'
+DEFAULT_CFG = {'bodies': 'small', 'fmt': 'md5sum', 'missing': '404', 'err': 404, 'head': 'ok', 'wrong': 'md5'}
+
+
+def _wrong_text(kind, good_hex):
+    """The text served for the abstract checksum answer 'bad' (a checksum is published and it is not the MD5 of
+    any body).  'trunc' / 'long' / 'nonhex' are derived from the RIGHT digest, so a comparison that tolerates, or
+    gives up on, malformed text instead of comparing it shows."""
+    if kind == 'md5':
+        return hashlib.md5(_BAD_BYTES).hexdigest()
+    if kind == 'trunc':
+        return good_hex[:-1]                    # phylib's own test fixture for an invalid checksum
+    if kind == 'long':
+        return good_hex + '0'
+    if kind == 'nonhex':
+        return good_hex[:-1] + 'g'
+    if kind == 'upper':
+        return hashlib.md5(_BAD_BYTES).hexdigest().upper()      # contains a letter: asserted at import
+    raise ValueError(kind)
 
 
 def _cfg(i):
@@ -97,7 +132,8 @@ def _cfg(i):
             'fmt': FMTS[(i // 2) % 3],
             'missing': MISSINGS[(i // 3) % 4],
             'err': ERRS[(i // 5) % 3],
-            'head': HEADS[(i // 7) % 5]}
+            'head': HEADS[(i // 7) % 5],
+            'wrong': WRONGS[(i // 4) % 5]}
 
 
 def _world(data, sums, rest, prior, cfg=None):
@@ -136,6 +172,12 @@ def generate(tier, rng):
     for n, (d, s, r, p) in enumerate(CORPUS):
         cases.append(_world(d, s, r, p))
         cases.append(_world(d, s, r, p, _cfg(n + 1)))
+    for wk in WRONGS[1:]:
+        # a published checksum that is not a well-formed lower-case MD5 is still a published checksum
+        c = dict(DEFAULT_CFG, wrong=wk)
+        cases.append(_world(['G', 'G'], [], 'bad', 'absent', c))      # rejected twice -> RuntimeError
+        cases.append(_world(['G'], [], 'bad', 'G', c))                # the pre-check says invalid: no skip
+        cases.append(_world(['C1', 'G'], ['bad'], 'ok', 'P', c))      # wrong only at the pre-check
     if tier == 'search':
         for n in range(1500):
             cases.append(_random_world(rng, n))
@@ -154,6 +196,11 @@ def generate(tier, rng):
                 if not quick:
                     for j in range(4):
                         cases.append(_world(d, [], r, p, _cfg(5 * n + 11 * j + 2)))
+                if r == 'bad':
+                    # every spelling of "wrong": once under the default configuration, once under a rotating one
+                    for j, wk in enumerate(WRONGS[1:]):
+                        cases.append(_world(d, [], r, p, dict(DEFAULT_CFG, wrong=wk)))
+                        cases.append(_world(d, [], r, p, dict(_cfg(7 * n + 3 * j + 1), wrong=wk)))
     # 1 MiB bodies (the 2**20 block loop of _md5): every world with a script of length <= 2
     for d in _scripts(['G', 'C1', 'E'], 2 if quick else 3):
         for r in ('ok', 'bad', 'none'):
@@ -184,7 +231,7 @@ def _random_world(rng, i):
     r = rng.choice(['ok', 'ok', 'bad', 'none', 'c1'])
     p = rng.choice(['absent', 'G', 'P', 'C1', 'C2'])
     c = {'bodies': rng.choice(BODY_KINDS[:4] * 6 + ['big']), 'fmt': rng.choice(FMTS), 'missing': rng.choice(MISSINGS),
-         'err': rng.choice(ERRS), 'head': rng.choice(HEADS)}
+         'err': rng.choice(ERRS), 'head': rng.choice(HEADS), 'wrong': rng.choice(WRONGS)}
     return _world(d, s, r, p, c)
 
 
@@ -283,8 +330,10 @@ def _server():
                     else:
                         self._drop()
                 else:
-                    src = _BAD_BYTES if r == 'bad' else w['bodies'][{v: k_ for k_, v in BODY_TOK.items()}[SUM_TOK[r]]]
-                    hx = hashlib.md5(src).hexdigest()
+                    if r == 'bad':
+                        hx = _wrong_text(w['cfg'].get('wrong', 'md5'), hashlib.md5(w['bodies']['G']).hexdigest())
+                    else:
+                        hx = hashlib.md5(w['bodies'][{v: k_ for k_, v in BODY_TOK.items()}[SUM_TOK[r]]]).hexdigest()
                     fmt = w['cfg']['fmt']
                     txt = hx if fmt == 'bare' else hx + '  data.bin\n' if fmt == 'md5sum' else hx + ' data.bin'
                     self._send(200, txt.encode('ascii'))
@@ -395,6 +444,8 @@ def dist(case, obs):
            'sums=' + ('const:' + i['rest'] if not i['sums'] else 'varying'),
            'cfg.bodies=' + i['cfg']['bodies'], 'cfg.fmt=' + i['cfg']['fmt'], 'cfg.missing=' + i['cfg']['missing'],
            'cfg.err=%s' % i['cfg']['err'], 'cfg.head=' + i['cfg']['head']]
+    if 'bad' in i['sums'] or i['rest'] == 'bad':
+        out.append('cfg.wrong=' + i['cfg'].get('wrong', 'md5'))
     if obs[0] == 'crash':
         out.append('crash=' + obs[1])
         return out
@@ -437,7 +488,7 @@ def shrink(case):
     if i['rest'] in ('c1', 'c2', 'p'):
         yield mk(rest='bad')
     for ax, dv in DEFAULT_CFG.items():
-        if i['cfg'][ax] != dv:
+        if i['cfg'].get(ax, dv) != dv:
             c = dict(i['cfg'])
             c[ax] = dv
             yield mk(cfg=c)
